@@ -190,6 +190,64 @@ def constructor_plumbing(chk, rng, quick):
                     chk.violation({"kind": "stable_dt_plumbing", "via": kind, "dim": D}, f"{type(sim).__name__} ({real_t.__name__}) velocity scale {scale}, prefactor {pf}: {er}")
 
 
+def simulator_max_principle(chk, rng, quick):
+    """the recommended step fed back into the simulators' own time step (fluid at rest = diffusion-limited): the step is the convex
+    averaging r = nu dt / h^2 of the documented five/seven-point stencil on EVERY grid shape (tall, wide, non-cubic)."""
+    import sopht.simulator as sps
+
+    plans = [("ns", (14, 7), np.float64), ("ns", (7, 13), np.float32), ("passive", (12, 7), np.float64)]
+    if not quick:
+        plans += [("ns", (7, 12, 8), np.float64), ("passive", (6, 11, 7), np.float32), ("passive", (7, 12), np.float32)]
+    for kind, shape, real_t in plans:
+        D = len(shape)
+        xr, nu = 0.75, 0.03
+        if kind == "passive":
+            sim = sps.PassiveTransportFlowSimulator(kinematic_viscosity=nu, grid_dim=D, grid_size=shape, x_range=xr, real_t=real_t)
+            prim = sim.primary_field
+        elif D == 2:
+            sim = sps.UnboundedNavierStokesFlowSimulator2D(grid_size=shape, x_range=xr, kinematic_viscosity=nu, real_t=real_t, penalty_zone_width=0)
+            prim = sim.vorticity_field
+        else:
+            sim = sps.UnboundedNavierStokesFlowSimulator3D(grid_size=shape, x_range=xr, kinematic_viscosity=nu, real_t=real_t, penalty_zone_width=0)
+            prim = sim.vorticity_field
+        h = xr / shape[-1]
+        sim.velocity_field[...] = 0
+        f0 = np.zeros(prim.shape)
+        inner = tuple(slice(2, -2) for _ in range(D))
+        f0[(Ellipsis,) + inner] = rng.random(f0[(Ellipsis,) + inner].shape)
+        prim[...] = f0
+        f0 = prim.astype(np.float64).copy()
+        dt = float(sim.compute_stable_timestep())
+        sim.time_step(dt=dt)
+        got = prim.astype(np.float64)
+        r = nu * dt / h**2
+        eps = float(np.finfo(real_t).eps)
+        chk.traces += 1
+        chk.count(("sim max principle", kind, shape, real_t.__name__))
+        errs = []
+        if r > 0.9 / (2 * D) * (1 + 16 * eps):
+            errs.append(f"nu dt / h^2 = {r} exceeds 0.9 / (2 D)")
+        if got.min() < f0.min() - 16 * eps or got.max() > f0.max() + 16 * eps:
+            errs.append(f"one step at the recommended dt maps values in [{f0.min():.3g}, {f0.max():.3g}] to [{got.min():.6g}, {got.max():.6g}]: new extrema")
+        # documented explicit diffusion step on the interior, ring unchanged
+        ref = f0.copy()
+        lead = f0.ndim - D
+        c = (slice(None),) * lead + tuple(slice(1, -1) for _ in range(D))
+        lap = -2 * D * f0[c]
+        for a in range(D):
+            hi = [slice(1, -1)] * D
+            lo = [slice(1, -1)] * D
+            hi[a] = slice(2, None)
+            lo[a] = slice(0, -2)
+            lap = lap + f0[(slice(None),) * lead + tuple(hi)] + f0[(slice(None),) * lead + tuple(lo)]
+        ref[c] = f0[c] + r * lap
+        deep = (slice(None),) * lead + tuple(slice(1, -1) for _ in range(D))
+        if np.abs(got[deep] - ref[deep]).max() > 64 * eps:
+            errs.append(f"one step of the fluid at rest differs from f + (nu dt / h^2) Laplacian_h f by {np.abs(got[deep] - ref[deep]).max():.3g} (r = {r:.4g})")
+        for er in errs[:2]:
+            chk.violation({"kind": "sim_max_principle", "via": kind, "dim": D}, f"{type(sim).__name__} {shape} {real_t.__name__}: {er}")
+
+
 def max_principle(chk, quick):
     plans = [((3, 3), 1, 4, "-2..2"), ((3, 3), 1, 8, "-2..2"), ((3, 3, 3), 1, 8, "-1..1" if quick else "-2..2"),
              ((3, 3, 3), 1, 6, "-1..1" if quick else "-2..2")]
@@ -261,6 +319,7 @@ def run(chk: core.Check):
         if len(chk.samples) < 3 and e["dominant"] and i % 5 == 0:
             chk.sample(e)
     constructor_plumbing(chk, rng, quick)
+    simulator_max_principle(chk, rng, quick)
     natural_instances(chk, 400 if quick else 6000, rng)
     max_principle(chk, quick)
     chk.assumptions += [
